@@ -200,11 +200,14 @@ def viewsOf (inherited : Option Nat) (looks : String → Look) (log : List (Nat 
 namespace Spec
 
 /-- "… is invoked with that context selected as current", on what the handlers saw from wherever
-they looked: invocation number `n` (counted from the first context) finds index `n` and the context
-at position `n`. An entry is (index logged by the handler, index variable seen, context seen). -/
+they looked: invocation number `n` (counted from the first context) finds the context at position
+`n` when it reads the current context, and no other index than `n` in the index variable. An entry is
+(index logged by the handler, index variable seen — `none` = unset there, context seen — `none` =
+reading the current context failed or returned nothing). -/
 def currentOk : Nat → List (Nat × Option Nat × Option Nat) → Bool
   | _, [] => true
-  | n, (j, idx, ctx) :: rest => j == n && idx == some n && ctx == some n && currentOk (n + 1) rest
+  | n, (j, idx, ctx) :: rest =>
+    j == n && ctx == some n && (idx.isNone || idx == some n) && currentOk (n + 1) rest
 
 /-- The documented handler names for a context, most specific first, then `__main__`
 (literal names; nothing here comes from the generated table). -/
